@@ -243,7 +243,7 @@ Proof.
                   m_data (mem_init (x_c x)) = []) by (splits; congruence).
   unfold xinit in Hi. destruct (c_alloc (x_c x)) eqn:Hca.
   - assert (m = mem_init (x_c x)) as ->.
-    { destruct (x_min_ans x); [congruence|]. destruct (m_len (mem_init (x_c x)) =? 0); congruence. }
+    { destruct (x_min_ans x); [congruence|]. destruct ((m_len (mem_init (x_c x)) =? 0) && negb (x_shared x)); congruence. }
     destruct Hbase as (B1 & B2 & B3 & B4 & B5). splits; auto. intros _ Hf. congruence.
   - destruct (x_shared x) eqn:Hsh.
     + inversion Hi; subst m. clear Hi. destruct Hbase as (B1 & B2 & B3 & B4 & B5).
@@ -255,13 +255,15 @@ Qed.
 
 (* an accepted configuration whose allocator refuses a non-empty minimum does not instantiate; every other does *)
 Lemma xinit_none x : xinit x = None <->
-  c_alloc (x_c x) = true /\ x_min_ans x = false /\ m_len (mem_init (x_c x)) <> 0.
+  c_alloc (x_c x) = true /\ x_min_ans x = false /\ (m_len (mem_init (x_c x)) <> 0 \/ x_shared x = true).
 Proof.
   unfold xinit. destruct (c_alloc (x_c x)).
   - destruct (x_min_ans x).
     + split; [discriminate|]. intros (_ & H & _). discriminate.
-    + destruct (Z.eqb_spec (m_len (mem_init (x_c x))) 0) as [E|E].
-      * split; [discriminate|]. intros (_ & _ & H). congruence.
+    + destruct (Z.eqb_spec (m_len (mem_init (x_c x))) 0) as [E|E], (x_shared x); cbn [andb negb].
+      * split; auto.
+      * split; [discriminate|]. intros (_ & _ & [H|H]); congruence.
+      * split; auto.
       * split; auto.
   - destruct (x_shared x); (split; [discriminate|]); intros (H & _); discriminate.
 Qed.
